@@ -531,6 +531,25 @@ def oracle(c):
     if k == "seq":
         cur = ubq(c["cur"])
         ops = c.get("ops", "")
+        names = ("xc", "yc", "angle", "aspect", "height", "confidence")
+        fl = lambda v: [None if x is None else float(x) for x in v]
+        if "exp" in c:
+            # queries and cache fills (gen_vertices, clone, intersection, clip, try_from) must not change any public field,
+            # incl. angle None vs Some(0.0): the fields are the initial ones with only the explicit writes applied
+            cb, eb = bits_list(c["cur"]), bits_list(c["exp"])
+            for i in range(6):
+                if cb[i] != eb[i]:
+                    out.append(("C19:seq:impure-call", "after [%s] field %s of the box is %s, but only the explicit writes were applied to a box that had %s: it must be %s" % (
+                        ops, names[i], fl(cur)[i], fl(ubq(c["a"]))[i], fl(ubq(c["exp"]))[i])))
+            for (got, want, call) in (("tb", "tbf", "BoundingBox::try_from(&box)"), ("tv", "tvf", "BoundingBox::try_from(box)")):
+                if c[got] != c[want]:
+                    out.append(("C19:convert:after-sequence", "after [%s] %s gives %s, on a fresh box with the fields %s it gives %s" % (
+                        ops, call, "an error" if c[got] == "E" else fl(bbq(c[got])), fl(ubq(c["exp"])), "an error" if c[want] == "E" else fl(bbq(c[want])))))
+            if c["area"] != c["areaf"] or c["radius"] != c["radiusf"]:
+                out.append(("C19:seq:impure-call", "after [%s] area()/get_radius() differ from those of a fresh box with the fields %s" % (ops, fl(ubq(c["exp"])))))
+            if c["eq"] != "11":
+                out.append(("C19:seq:impure-call", "after [%s] the box is not == to a fresh box with the fields %s (orders: %s)" % (ops, fl(ubq(c["exp"])), c["eq"])))
+            cur = ubq(c["exp"])
         for (got, want, call) in (("gv", "fv", "get_vertices()"), ("pf", "ff", "Polygon::from(&box)")):
             if c[got] != c[want]:
                 out.append(("C19:polygon:stale-cache", "after [%s] the box has fields %s but %s returns a polygon that differs from the one of a fresh box with the same fields (first vertex (%r, %r) instead of (%r, %r))" % (
@@ -540,7 +559,7 @@ def oracle(c):
         if cur[2] is not None and c["gc"] != c["fc"]:
             out.append(("C19:polygon:stale-cache", "after [%s] and a new gen_vertices() the cached polygon of the box with fields %s differs from the one of a fresh box with the same fields" % (ops, [None if x is None else float(x) for x in cur])))
         # the polygon returned now must be the rotated rectangle of the CURRENT fields (same oracle as for fresh boxes)
-        pseudo = {"kind": "poly", "a": c["cur"], "v": c["gv"], "n": c["n"], "area": c["area"], "radius": c["radius"]}
+        pseudo = {"kind": "poly", "a": c.get("exp", c["cur"]), "v": c["gv"], "n": c["n"], "area": c["area"], "radius": c["radius"]}
         for (key, msg) in oracle(pseudo):
             out.append((key, "after [%s]: %s" % (ops, msg)))
         return out
@@ -714,6 +733,9 @@ def decode(c):
     if c["kind"] == "seq":
         d["ops"] = [o if ":" not in o or o.endswith(":N") else "%s:%r" % (o.split(":")[0], float(f32q(int(o.split(":")[1])))) for o in c["ops"].split(";") if o]
         d["current_fields"] = [None if x is None else float(x) for x in ubq(c["cur"])]
+        if "exp" in c:
+            d["expected_fields"] = [None if x is None else float(x) for x in ubq(c["exp"])]
+            d["try_from_ref"], d["fresh_try_from_ref"] = c["tb"], c["tbf"]
         d["get_vertices"] = [float(f64q(int(x))) for x in c["gv"].split(",")]
         d["fresh_box_get_vertices"] = [float(f64q(int(x))) for x in c["fv"].split(",")]
     return d
